@@ -54,6 +54,15 @@ func raTree(root string, files *ra.Files, cfgYAML string) error {
 	for n, s := range files.Exclude {
 		t["regex-assembly/exclude/"+n+".ra"] = s
 	}
+	// files of the same names in the working directory (the root) are not what an include line means
+	for _, m := range []map[string]string{files.Include, files.Exclude} {
+		for n := range m {
+			if !strings.Contains(n, "/") {
+				t[n+".ra"] = "cwddecoyentry\n"
+				t[n] = "cwddecoyentry\n"
+			}
+		}
+	}
 	return t.Write(root)
 }
 
@@ -70,11 +79,14 @@ func raGenerate(env *core.Env, root, program string, trace bool) *raRun {
 		args = append([][]string{{"--log-level", lvl}, {"-l", lvl}, {"--log-level=" + lvl}}[(h>>12)%3], args...)
 	}
 	cmd := sut.Cmd{Bin: env.Bin, Args: args, Stdin: []byte(program), Dir: root}
+	if (h>>16)%8 == 0 {
+		cmd.Env = []string{"GITHUB_ACTIONS=true", "GITHUB_STEP_SUMMARY=" + filepath.Join(filepath.Dir(root), "summary.md")} // as inside a workflow run
+	}
 	logf := ""
 	if trace && env.HooksOn {
 		logf = filepath.Join(filepath.Dir(root), "hook.log")
 		_ = os.Remove(logf)
-		cmd.Env = []string{"CRS_VERIF_TRACE=" + logf}
+		cmd.Env = append(cmd.Env, "CRS_VERIF_TRACE="+logf)
 	}
 	r := sut.Run(cmd)
 	run := &raRun{Res: r, Out: string(r.Stdout)}
